@@ -18,6 +18,9 @@ pub struct OracleState {
     /// synchronisation task is taken off the queue whenever it shows up
     /// (what that task does when the signer is not local: nothing).
     pub signer_offline: bool,
+    /// A signing session was started; the requests that waited for it are
+    /// answered by the next stretch of background work.
+    pub signer_backlog: bool,
     pub deleted_cas: BTreeSet<String>,
     pub tasks_run: u64,
     /// Child removals, suspensions and CA deletions so far.
